@@ -638,6 +638,29 @@ theorem R7_repaired : isCompatible tR7 64 6 8 = some false := by decide
 theorem R7_converse_refused : isCompatible tR7 64 8 6 = some false ∧ isCompatible tR7u 64 14 6 = some false := by
   decide
 
+/-- A WRITTEN intersection of partial types (C02's finding, repair notes/C02-fixes/15): 0 int, 1 bin,
+2 `'r = (read: int)`, 3 `'w = (write: bin)` (read = 2, write = 3). `intersect_pair` has no arm for two
+partial types: the fallback keeps the LEFT operand when the two overlap, so `'r & 'w` resolves to `'r`,
+which `[read: 1]` inhabits. The proposed arm (`Variant.partialIntersectExact`) builds
+`(read: int, write: bin)`. (`intersect_keeps` holds for both: keeping the left operand is a superset.) -/
+def tRW : Table :=
+  ⟨[.integer, .binary, .part none [(2, 0)], .part none [(3, 1)]], [⟨none, []⟩, ⟨some 1, []⟩]⟩
+
+/-- `[read: 1]` and `[read: 1, write: 0x02]` -/
+def vR : V := .tup none (.cons (some 2) (.int 1) .nil)
+def vRW : V := .tup none (.cons (some 2) (.int 1) (.cons (some 3) (.bin [2]) .nil))
+
+theorem RW_left_operand_kept :
+    (intersect Variant.current 16 8 tRW 2 3).map (·.2) = some 2 ∧ inhB tRW 8 [] 2 vR = true ∧
+      inhB tRW 8 [] 3 vR = false := by decide
+
+theorem RW_exact :
+    ∃ T' r, intersect { partialIntersectExact := true } 16 8 tRW 2 3 = some (T', r) ∧
+      T'.types[r]? = some (.part none [(2, 0), (3, 1)]) ∧ inhB T' 8 [] r vR = false ∧
+      inhB T' 8 [] r vRW = true := by
+  refine ⟨_, _, rfl, ?_⟩
+  decide
+
 /-- R2: 0 int, 1 never, 2 `@(never / int)`, 3 `@(int / int)` — the first is assignable to the
 second, a process declared with type 2 inhabits both, yet they "do not overlap" -/
 def tR2 : Table :=
